@@ -1,8 +1,8 @@
 #!/bin/bash
-# seedverify.sh <ID> <a|b>: confirm a seeded change in its scratch worktree /tmp/seed-<ID>:
+# seedverify.sh <ID> <a|b> [dest-letter]: confirm a seeded change in its scratch worktree ($WT, default /tmp/seed-<ID>):
 #   demo passes without the patch; with the patch it compiles, the pinned suite passes, the demo fails.
 # On success copies patch/demo/notes to /verif/seeded/<ID><x>/ with a meta.json skeleton.
-id=$1; x=$2; wt=/tmp/seed-$id; out=$wt/OUT/$x
+id=$1; x=$2; y=${3:-$2}; wt=${WT:-/tmp/seed-$id}; out=$wt/OUT/$x
 cd $wt || exit 2
 git checkout -q -- src 2>/dev/null
 export CARGO_NET_OFFLINE=true
@@ -19,7 +19,7 @@ echo "$id$x | without: $r0 | with: $r1 | suite: $suite | builderrs: $b1 $b2"
 case "$r0" in *"ok."*) ;; *) echo "$id$x: demo does not pass on the unchanged tree"; exit 1;; esac
 case "$r1" in *FAILED*) ;; *) echo "$id$x: demo does not fail with the change"; exit 1;; esac
 case "$suite" in *"38 passed; 0 failed"*) ;; *) echo "$id$x: pinned suite not green with the change"; exit 1;; esac
-d=/verif/seeded/$id$x; mkdir -p $d
+d=/verif/seeded/$id$y; mkdir -p $d
 cp $out/patch.diff $d/patch.diff; cp $out/demo.rs $d/demo.rs; cp $out/notes.md $d/notes.md
 echo "{\"verify\": \"without: $r0 | with: $r1 | suite: $suite\"}" > $d/verify.json
-echo "$id$x: CONFIRMED"
+echo "$id$x -> $id$y: CONFIRMED"
